@@ -175,6 +175,20 @@ def build_case(spec):
             for b in a:
                 b.p[LISTPARAM] = shared
     vary_pins(core, random.Random(spec["vseed"] + 17), spec.get("pins", "auto"))
+    r._verifZones = None
+    if spec.get("zones"):
+        # a core with zones: every assembly (but a few) in one of 2-3 zones, by location label
+        from armi.reactor import zones as zmod
+        rz = random.Random(spec["vseed"] + 53)
+        nz = rz.choice([2, 3])
+        members = {"zone%d" % q: [] for q in range(nz)}
+        for a in sorted(core, key=cell_of):
+            if not on120(cell_of(a)) and rz.random() < 0.9:
+                members["zone%d" % rz.randrange(nz)].append(a.getLocation())
+        core.zones = zmod.Zones()
+        for name, locs in sorted(members.items()):
+            core.zones.addZone(zmod.Zone(name, locs))
+        r._verifZones = {z.name: set(z.locs) for z in core.zones}
     # what the name tables and the pool hold besides the core children (pool assemblies, blueprint / load-queue
     # assemblies): must be exactly this after every operation
     sfp = r.excore.get("sfp")
@@ -681,6 +695,39 @@ def reach(root):
     return seen
 
 
+def zones_of(core, a):
+    return sorted(z.name for z in core.zones if a.getLocation() in z.locs)
+
+
+def zones_ok(r, fails, case, tag):
+    """Third-core states: the zones hold the locations they held at the start (the copies' locations, which convert adds
+    to the zone of their source, are gone again)."""
+    base = getattr(r, "_verifZones", None)
+    core = r.core
+    if base is None or core.isFullCore:
+        return
+    now = {z.name: set(z.locs) for z in core.zones}
+    if now == base:
+        return
+    grid = core.spatialGrid
+    only_stale_copies = set(now) == set(base)
+    for name in base:
+        if not only_stale_copies:
+            break
+        images = set()
+        for a in core:
+            if a.getLocation() in base[name]:
+                c = cell_of(a)
+                images |= {grid.getLabel((x[0], x[1], 0))[:7] for x in orbit(c)[1:]}
+        if base[name] - now[name] or not (now[name] - base[name]) <= images:
+            only_stale_copies = False
+    key = "restore-leaves-copies-in-zones" if only_stale_copies else "restore-exact-zones"
+    diff = {n: sorted(now.get(n, set()) ^ base.get(n, set()))[:4] for n in set(now) | set(base)
+            if now.get(n) != base.get(n)}
+    fails.append(Failure(key, "undoing the conversion returns the core to its previous state: every zone holds the "
+                         "locations it held before", case, observed=diff, note=tag))
+
+
 def sub_line(core, vseed):
     """Canonical form of what hangs below the assemblies, for the comparison with Model/Sym3.lean `Sub`: objects are
     named (assembly number, role) by FIRST encounter walking the children in order (role = block index for a block,
@@ -860,6 +907,7 @@ def run_case(ctx, spec, ops, compare=True):
     ctx.count("pin layout " + spec.get("pins", "auto"))
     ctx.count("fixture " + spec.get("fixture", "ref"))
     ctx.count("prior rotations " + spec.get("prerot", "none"))
+    ctx.count("cores with zones" if spec.get("zones") else "cores without zones")
     ctx.count("source assemblies with non-zero orientation", sum(1 for a in core if int(round(float(a[0].p.orientation[2]))) % 360))
     ctx.count("blocks with more than two boundary vectors",
               sum(1 for a in core for b in a if sum(1 for _, (k, v) in bnd_sig(b) if k in "AL" and len(v) == 6) > 2))
@@ -887,6 +935,7 @@ def run_case(ctx, spec, ops, compare=True):
                 "calc": [core.calcTotalParam(p, generationNum=2, addSymmetricPositions=True) for p in PARAMS],
                 "pins": {cell_of(a): assem_pins(a, spec["vseed"]) for a in src},
                 "volint": volint_totals(src),
+                "zones": {cell_of(a): zones_of(core, a) for a in src} if getattr(r, "_verifZones", None) is not None else None,
                 "volint_centre": volint_totals([a for a in src if cell_of(a) == (0, 0)]),
             }
             # a few orbits get the complete treatment (every pin, whole object graph)
@@ -977,6 +1026,8 @@ def run_case(ctx, spec, ops, compare=True):
                                      observed=[w for w, x, y in zip(what, before_noop, after_noop) if x != y], note=tag))
         lookups_ok(r, fails, case, tag)
         sub_ok(r, fails, case, tag, base_sub)
+        if raised is None:
+            zones_ok(r, fails, case, tag)
         if raised is None and op == "addEdge" and not core.isFullCore:
             copies_deep_ok(core, [[cell_of(a), cell_of(image)] for a, image in edge_pairs(core)], fails, case, tag)
         if raised is None:
@@ -1162,6 +1213,11 @@ def check_full(r, pre, fails, case, tag):
                                      expected=want[bi][ci][2][:2] if len(want) > bi and len(want[bi]) > ci else None,
                                      note=tag))
                 return
+            if pre.get("zones") is not None and zones_of(core, a) != pre["zones"][c]:
+                fails.append(Failure("copy-zone-membership", "each new assembly belongs to the zone of its source (and the "
+                                     "sources stay where they were)", case, observed=[x, zones_of(core, a)],
+                                     expected=pre["zones"][c], note=tag))
+                return
             if k == 0 and a.name != name:
                 fails.append(Failure("source-keeps-name", "source assemblies keep their names", case,
                                      observed=a.name, expected=name, note=tag))
@@ -1174,7 +1230,7 @@ def check_full(r, pre, fails, case, tag):
 def gen_spec(rng, kind):
     fixture = rng.choice(["ref", "ref", "ref", "ref", "afci"])
     big = _BASE.get("thorough")       # quick: the 9-ring reference core is visited by the fixed corpus only
-    rings = rng.choice([2, 3, 3, 4, 5, 6, 7, 9] if big else [2, 3, 3, 4, 5, 6, 7]) if fixture == "ref" else \
+    rings = rng.choice([2, 3, 3, 4, 5, 6, 7, 9] if big else [2, 3, 3, 4, 4, 5, 6]) if fixture == "ref" else \
         rng.choice([3, 4, 5, 6, 8, 11] if big else [3, 4, 5])
     _, r0 = base_reactor(fixture)
     cells = [cell_of(a) for a in r0.core if ring_of(cell_of(a)) <= rings]
@@ -1194,7 +1250,8 @@ def gen_spec(rng, kind):
     return {"rings": rings, "holes": sorted(holes), "edges0": edges0, "vseed": rng.randint(0, 10 ** 6),
             "arr": rng.choice(["list", "array", "aliased"]), "track": rng.random() < 0.5,
             "pins": rng.choice(["auto", "partial", "mixed", "mixed"]), "fixture": fixture,
-            "prerot": rng.choice(["none", "some", "some", "all"]), "bnd": rng.choice(["two", "many", "many"])}
+            "prerot": rng.choice(["none", "some", "some", "all"]), "bnd": rng.choice(["two", "many", "many"]),
+            "zones": rng.random() < 0.4}
 
 
 PHRASES = [["convert", "convert", "restore"], ["convert", "restore", "restore"], ["convert", "convert", "restore", "restore"],
@@ -1226,7 +1283,7 @@ def in_model_domain(spec, ops):
 def run(ctx):
     rng = ctx.rng
     _BASE["thorough"] = bool(ctx.thorough)
-    ncases = ctx.pick(22, 110)
+    ncases = ctx.pick(20, 110)
     plan = []
     # fixed corpus first: the design-round probes and the excluded points
     plan.append(({"rings": 9, "holes": [], "edges0": False, "vseed": 1}, ["convert", "restore"]))
@@ -1237,7 +1294,7 @@ def run(ctx):
     # the same changer objects used again with redundant calls (convert on a full core, restore twice, addEdge twice, ...)
     plan.append(({"rings": 3, "holes": [], "edges0": False, "vseed": 41, "arr": "array"},
                  ["convert", "convert", "restore", "restore", "convert", "restore"]))
-    plan.append(({"rings": 4, "holes": [], "edges0": False, "vseed": 42, "prerot": "all", "bnd": "many"},
+    plan.append(({"rings": 4, "holes": [], "edges0": False, "vseed": 42, "prerot": "all", "bnd": "many", "zones": True},
                  ["addEdge", "addEdge", "removeEdge", "removeEdge", "convert", "addEdge", "removeEdge", "convert", "restore"]))
     # sources rotated during fuel management, per-corner / per-edge data on a random subset of blocks
     plan.append(({"rings": 5, "holes": [[1, 1]], "edges0": False, "vseed": 43, "prerot": "some", "bnd": "many", "arr": "array",
